@@ -127,7 +127,7 @@ def run(pid, tier, seed, res, seeds_extra=None, only=None):
             res.distinct.add(hashlib.sha1(json.dumps(case, sort_keys=True).encode()).hexdigest()[:12])
     # ---- build rules (C13: a non-debug node depending on a debug node; C11: a setup node depending on a
     #      non-setup node or a DAG parameter): accepted / rejected at build time as Build.v says
-    nviol = 60 if tier == "quick" else 800
+    nviol = 240 if tier == "quick" else 2400
     for _ in range(nviol):
         basec = cases[rng.randrange(len(cases))]
         vc = kgraph.gen_violation(rng, basec)
@@ -146,12 +146,18 @@ def run(pid, tier, seed, res, seeds_extra=None, only=None):
         for j in range(n_):
             if vc["consts"].get(str(j)):
                 deps[j] = deps[j] + [CONST0 + j]
-        deps[v["dst"]] = deps[v["dst"]] + [PARAM if v["how"] == "param" else v["src"]]
+        SUBSTUB = n_ + 1 + n_  # the input stub of a nested DAG: a non-debug, non-setup node of the outer DAG
+        mnodes = list(range(n_))
+        if v["via"] in ("subarg", "subflag"):
+            deps[SUBSTUB] = [v["src"]]
+            mnodes.append(SUBSTUB)
+        else:
+            deps[v["dst"]] = deps[v["dst"]] + [PARAM if v["how"] == "param" else v["src"]]
         term = "kbuild %s %s %s %s %s %s" % (
             coqrun.fun_table(deps, "[]", coqrun.nat_list),
             coqrun.fun_table({j: True for j in vc["debug"]}, "false", lambda b: "true"),
             coqrun.fun_table({j: True for j in vc["setup"]}, "false", lambda b: "true"),
-            "(fun n : nat => Nat.leb %d n)" % CONST0, "(fun n : nat => Nat.eqb n %d)" % PARAM, coqrun.nat_list(list(range(n_))))
+            "(fun n : nat => andb (Nat.leb %d n) (Nat.ltb n %d))" % (CONST0, SUBSTUB), "(fun n : nat => Nat.eqb n %d)" % PARAM, coqrun.nat_list(mnodes))
         where.append(("viol", dict(case=vc, built=built)))
         items.append(("nat", term))
         res.evaluations += 1
@@ -184,7 +190,7 @@ def run(pid, tier, seed, res, seeds_extra=None, only=None):
             if mv is None:
                 res.hit(pid, "divergence", "no model result for a build-rule case", dict(base, kind="no-result"))
                 continue
-            owner = "C11" if v["dst"] in vc["setup"] else "C13"
+            owner = "C11" if (v["dst"] in vc["setup"] and v["via"] not in ("subarg", "subflag")) else "C13"
             if mv[0] == 1 and built[0] != "ok":
                 res.hit(owner, "divergence", "K-build: a DAG the build rules accept was rejected: %s (extra dependency %s)" % (built[1], v), dict(base, kind="divergence"))
             elif mv[0] == 0 and built[0] == "ok":
